@@ -2,9 +2,11 @@
 
 A program is a list of ops over host handles (numbered in creation order):
   ["new"] ["g1",h] ["g2",h1,h2] ["mi",h] ["md",h] ["free",h]
-  ["keep",n,recv(,burst)] ["ctx",n,recv] ["flush"]      burst: all OKs delivered at the first wait poll
-  ["seq",n,recv(,burst)]   keep with sequential=True and a post routine that measures; the n returned
-                           handles are numbered like any others but are dead
+  ["keep",n,recv(,burst,bells)] ["ctx",n,recv(,body,bells)] ["flush"]
+      burst: all OKs delivered at the first wait poll; bells: reported Bell state per pair (0 = Phi+);
+      body: what the block / post routine does with its qubit (BODIES)
+  ["seq",n,recv(,burst,bells,body)]   keep with sequential=True and a post routine; the n returned
+                           handles are numbered like any others but are dead unless the body keeps
 A configuration is (max_q, nv_hw, transp).
 
 Session runs the ops one by one through sdk_pipeline.Pipeline (real Qubit /
@@ -33,6 +35,10 @@ class Cfg:
     @property
     def nv(self):
         return self.nv_hw or self.transp
+
+    @property
+    def single_comm(self):
+        return self.nv or self.max_q == 1
 
     @property
     def budget(self):
@@ -183,12 +189,13 @@ class Session:
     def hid(self, h):
         return self.handles[h].qubit_id
 
-    def _responses(self, n, recv, burst=False):
+    def _responses(self, n, recv, burst=False, bells=None):
         """Script the n OKs of one request.  Each is created when the environment delivers it
         (a callable for the pipeline).  fresh_delivery: it names a physical qubit that is not
         mapped: physical qubit 0 when that is free and the OK is the first of its poll with
-        nothing held back (so it is handled at once), else a never-used one.  PHI_PLUS: no
-        correction gates.  burst: all n OKs are delivered at the first wait poll (the
+        nothing held back (so it is handled at once), else a never-used one.  bells: the
+        Bell state reported per pair (BellState values 0..3, default PHI_PLUS = 0); the
+        receiver's correction gates run for the others.  burst: all n OKs are delivered at the first wait poll (the
         controller holds back those whose virtual ID is still in use); else one per poll."""
         from netqasm.qlink_compat import BellState, LinkLayerOKTypeK, ReturnType
 
@@ -198,7 +205,8 @@ class Session:
             else:
                 phys = self.phys
                 self.phys += 1
-            return LinkLayerOKTypeK(ReturnType.OK_K, 0, phys, 1 if recv else 0, i, 0, 1, 0, 0, BellState.PHI_PLUS)
+            bs = BellState(bells[i]) if bells and i < len(bells) else BellState.PHI_PLUS
+            return LinkLayerOKTypeK(ReturnType.OK_K, 0, phys, 1 if recv else 0, i, 0, 1, 0, 0, bs)
 
         if burst and n >= 2:
             def deliver_all(ex):
@@ -237,26 +245,29 @@ class Session:
             elif k == "free":
                 self.handles[op[1]].free()
             elif k == "keep":
-                n, recv = op[1], op[2]
-                self._responses(n, recv, burst=len(op) > 3 and op[3])
+                n, recv, burst, bells = keep_fields(op)
+                self._responses(n, recv, burst=burst, bells=bells)
                 qs = self.sock.recv_keep(number=n) if recv else self.sock.create_keep(number=n)
                 self.handles += list(qs)
             elif k == "seq":
-                n, recv = op[1], op[2]
-                self._responses(n, recv, burst=len(op) > 3 and op[3])
+                n, recv, burst, bells, body = seq_fields(op)
+                self._responses(n, recv, burst=burst, bells=bells)
 
                 def post(_builder, q, _pair):
-                    q.measure()
+                    run_body(q, body)
 
                 f = self.sock.recv_keep if recv else self.sock.create_keep
                 self.handles += list(f(number=n, sequential=True, post_routine=post))
             elif k == "ctx":
-                n, recv = op[1], op[2]
-                self._responses(n, recv)
+                n, recv, body, bells = ctx_fields(op)
+                self._responses(n, recv, bells=bells)
                 cm = self.sock.recv_context(number=n) if recv else self.sock.create_context(number=n)
                 with cm as (q, pair):
-                    q.H()
-                    q.measure()
+                    run_body(q, body)
+                if body == "keep":
+                    # the pairs stay in memory; the handles that hold their IDs are the last n
+                    # active qubits: the host may go on using them
+                    self.handles += list(self.conn.active_qubits)[-n:]
             else:
                 raise KeyError(k)
         except (AssertionError, ValueError) as e:
@@ -304,6 +315,41 @@ class Session:
         return self.obs[-1]
 
 
+BODIES = ("md", "free", "mi_free", "h_free", "keep")
+
+
+def run_body(q, body):
+    """what an EPR block / post routine does with its qubit"""
+    if body == "md":
+        q.H()
+        q.measure()
+    elif body == "free":
+        q.free()
+    elif body == "mi_free":
+        q.measure(inplace=True)
+        q.free()
+    elif body == "h_free":
+        q.H()
+        q.free()
+    elif body == "keep":
+        q.H()
+    else:
+        raise KeyError(body)
+
+
+def keep_fields(op):   # ["keep", n, recv, burst=False, bells=None]
+    return op[1], op[2], (op[3] if len(op) > 3 else False), (op[4] if len(op) > 4 else None)
+
+
+def seq_fields(op):    # ["seq", n, recv, burst=False, bells=None, body="md"]
+    return (op[1], op[2], (op[3] if len(op) > 3 else False), (op[4] if len(op) > 4 else None),
+            (op[5] if len(op) > 5 else "md"))
+
+
+def ctx_fields(op):    # ["ctx", n, recv, body="md", bells=None]
+    return op[1], op[2], (op[3] if len(op) > 3 else "md"), (op[4] if len(op) > 4 else None)
+
+
 def run_program(repo, cfg, ops):
     s = Session(repo, cfg)
     for op in ops:
@@ -342,15 +388,25 @@ def gen_program(repo, cfg, rng, max_len, want_refusal=False):
         cand = [(("flush",), 3.0)]
         if room >= 1:
             cand.append((("new",), 4.0))
+            def bells(n):
+                return [0 if rng.random() < 0.35 else rng.randint(1, 3) for _ in range(n)]
+
             for n in range(1, min(3, room) + 1):
-                op = ("keep", n, rng.random() < 0.5, rng.random() < 0.5)
+                op = ("keep", n, rng.random() < 0.5, rng.random() < 0.5, bells(n))
                 if refusal_expected(cfg, s.ids(), op):
                     if want_refusal:
                         cand.append((op, 0.3))
                 else:
                     cand.append((op, 1.2 / n))
-                cand.append((("ctx", n, rng.random() < 0.5), 0.8 / n))
-            cand.append((("seq", rng.randint(1, 3), rng.random() < 0.5, rng.random() < 0.5), 0.8))
+                body = rng.choice(BODIES)
+                if body == "keep" and cfg.single_comm and n > 1:
+                    body = "free"
+                cand.append((("ctx", n, rng.random() < 0.5, body, bells(n)), 0.8 / n))
+            ns = rng.randint(1, 3)
+            body = rng.choice(BODIES)
+            if body == "keep" and ns > 1:
+                body = "mi_free"
+            cand.append((("seq", ns, rng.random() < 0.5, rng.random() < 0.5, bells(ns), body), 0.8))
         if live:
             h = rng.choice(live)
             cand += [(("g1", h), 2.0), (("mi", h), 1.5), (("md", h), 3.0), (("free", h), 2.0)]
@@ -377,7 +433,12 @@ def gen_program(repo, cfg, rng, max_len, want_refusal=False):
             live += list(range(nh, nh + op[1]))
             nh += op[1]
         elif op[0] == "seq":
-            nh += op[1]          # handles handed out, already consumed by the post routine
+            if op[5] == "keep":
+                live.append(nh)  # a single pair that the post routine kept
+            nh += op[1]          # else: handles handed out, already consumed by the post routine
+        elif op[0] == "ctx" and op[3] == "keep":
+            live += list(range(nh, nh + op[1]))
+            nh += op[1]
         elif op[0] in ("md", "free"):
             live.remove(op[1])
         assert len(s.handles) == nh, (len(s.handles), nh, before)
@@ -398,12 +459,13 @@ def enumerate_programs(cfg, depth):
         nxt = [(["flush"], live, nh)]
         if room >= 1:
             nxt.append((["new"], live + [nh], nh + 1))
-            nxt.append((["keep", 1, False], live + [nh], nh + 1))
-            nxt.append((["ctx", 1, True], live, nh))
-            nxt.append((["seq", 2, True, True], live, nh + 2))
+            nxt.append((["keep", 1, True, False, [1]], live + [nh], nh + 1))
+            nxt.append((["ctx", 1, True, "free", [2]], live, nh))
+            nxt.append((["ctx", 1, False, "keep"], live + [nh], nh + 1))
+            nxt.append((["seq", 2, True, True, [3, 1], "mi_free"], live, nh + 2))
             if room >= 2:
-                nxt.append((["keep", 2, True, True], live + [nh, nh + 1], nh + 2))   # both OKs at the first poll
-                nxt.append((["ctx", 2, False], live, nh))
+                nxt.append((["keep", 2, True, True, [2, 3]], live + [nh, nh + 1], nh + 2))   # both OKs at the first poll
+                nxt.append((["ctx", 2, False, "h_free"], live, nh))
         for h in live:
             nxt.append((["mi", h], live, nh))
             nxt.append((["md", h], [x for x in live if x != h], nh))
@@ -438,12 +500,24 @@ def coq_op(op):
     if k == "free":
         return f"Free {op[1]}"
     if k == "keep":
-        return f"EprKeep {op[1]} {str(bool(op[2])).lower()}"
+        n, recv, _, bells = keep_fields(op)
+        return f"EprKeep {n} {str(bool(recv)).lower()} {coq_nonphi(bells)}"
     if k == "ctx":
-        return f"EprContext {op[1]} {str(bool(op[2])).lower()}"
+        n, recv, body, _ = ctx_fields(op)
+        return f"EprContext {n} {str(bool(recv)).lower()} {coq_body(body)}"
     if k == "seq":
-        return f"EprKeepSeq {op[1]} {str(bool(op[2])).lower()}"
+        n, recv, _, bells, body = seq_fields(op)
+        return f"EprKeepSeq {n} {str(bool(recv)).lower()} {coq_nonphi(bells)} {coq_body(body)}"
     raise KeyError(k)
+
+
+def coq_nonphi(bells):
+    return coq_list("true" if b != 0 else "false" for b in (bells or []))
+
+
+def coq_body(body):
+    return {"md": "(BConsume true)", "mi_free": "(BConsume true)", "h_free": "(BConsume true)",
+            "free": "(BConsume false)", "keep": "BKeep"}[body]
 
 
 def coq_nats(xs):
